@@ -123,33 +123,40 @@ def _solve(job):
         return name, "error", "z3-5.1", time.time() - t0, repr(e)[:300], None
 
 
+_WORK = []        # (axioms, obligation) pairs, inherited by forked workers (z3 terms cannot be pickled)
+
+
+def _solve_idx(args):
+    i, t_qf, t_full, want_model, use_cli = args
+    axioms, o = _WORK[i]
+    try:
+        qf = None if has_quant(o.goal) else to_smt2([], o.hyps, o.goal, qf_only=True)
+        full = to_smt2(axioms, o.hyps, o.goal)
+    except Exception as e:   # noqa
+        return i, "error", "z3-5.1", 0.0, "smt2 export: " + repr(e)[:200], None
+    if o.kind == "canary":
+        return _solve((i, qf, full, 2000, 3000, False, False))
+    return _solve((i, qf, full, t_qf, t_full, want_model, use_cli))
+
+
 def discharge(cxs, t_qf=5000, t_full=30000, procs=None, use_cli=True, want_model=True):
     """cxs: list of FnCtx.  Sets status/solver/time on each obligation."""
-    jobs = []
-    index = {}
-    for ci, cx in enumerate(cxs):
-        for oi, o in enumerate(cx.obls):
-            key = (ci, oi)
-            qf = None
-            if not has_quant(o.goal):
-                qf = to_smt2([], o.hyps, o.goal, qf_only=True)
-            full = to_smt2(cx.axioms, o.hyps, o.goal)
-            index[key] = o
-            if o.kind == "canary":
-                jobs.append((key, qf, full, 2000, 3000, False, False))
-            else:
-                jobs.append((key, qf, full, t_qf, t_full, want_model, use_cli))
-    if not jobs:
+    global _WORK
+    _WORK = [(cx.axioms, o) for cx in cxs for o in cx.obls]
+    if not _WORK:
         return
+    jobs = [(i, t_qf, t_full, want_model, use_cli) for i in range(len(_WORK))]
     procs = procs or min(16, os.cpu_count() or 4, len(jobs))
     if procs <= 1 or len(jobs) == 1:
-        results = [_solve(j) for j in jobs]
+        results = [_solve_idx(j) for j in jobs]
     else:
-        with mp.Pool(procs) as pool:
-            results = pool.map(_solve, jobs, chunksize=1)
-    for key, status, solver, t, reason, model in results:
-        o = index[key]
+        ctx = mp.get_context("fork")
+        with ctx.Pool(procs) as pool:
+            results = pool.map(_solve_idx, jobs, chunksize=1)
+    for i, status, solver, t, reason, model in results:
+        o = _WORK[i][1]
         o.status, o.solver, o.time, o.reason, o.model = status, solver, t, reason, model
+    _WORK = []
 
 
 def check_sat(axioms, hyps, timeout=5000):
